@@ -54,6 +54,12 @@ TEMPLATES += [
     'class K3\n    def m2(fin self) -> Str => "first"\nclass K1\n    def m2(fin self) -> Str => "second"\nclass K2\n    def m2(fin self) -> Str => "third"\nclass K5: K3, K1, K2\ndef o7 := K5()\nprint(o7.m2())\ndef f8(a9: Int, a1: Int := 2, a5: Int := 3) -> Int => a9 * 100 + a1 * 10 + a5\nprint(f8(1))\nprint(f8(1, 5))\n',
 ]
 
+TEMPLATES += [
+    # a resource taken out of scope by `with`: a name that merely STARTS like the resource stays in scope
+    'def f1(a2: Int) => print("value {a2}")\ndef v3 := 10\ndef v4 := 32\nwith v3 as w5: Int do\n    f1(w5)\n    f1(v4)\ndef f6(a7: Int, a8: Int) =>\n    with a7 as w9: Int do\n        f1(w9)\n        f1(a8)\nf6(1, 2)\n',
+]
+ALL_DERIVED = {len(TEMPLATES) - 1}      # templates for which more derived renamings are tried in the quick tier
+
 NAME_RE = re.compile(r"\b(?:Err\d+|msgErr\d+|[KT]\d+|[vwmtohfacgpi]\d+)\b")
 
 
@@ -224,7 +230,7 @@ def run(chk):
     n_derived = 0
     for i in range(len(TEMPLATES)):
         ds = derived_rhos(rng, kinds[i])
-        for rho in (ds if thorough else rng.sample(ds, min(30, len(ds)))):
+        for rho in (ds if thorough else rng.sample(ds, min(80 if i in ALL_DERIVED else 30, len(ds)))):
             cases.append((i, rho, "derived"))
             n_derived += 1
     # systematic: every colliding name for every kind, alone, on some program that has a name of that kind
